@@ -36,6 +36,11 @@ def build_fsm(it, extra=(), receiver='fsm', pre=None):
     return roots, args, {}, S
 
 
+C12_UNITS = ('BGPPeering.connect', 'BGPPeering.connect_retry', 'BGPPeering.buildProtocol', 'BGPPeering.clientConnectionFailed',
+             'BGPPeering.connection_closed', 'BGP.connectionLost', 'BGP.connectionMade', 'BGP.closeConnection',
+             'FSM._close_connection', 'FSM._error_close', 'FSM.manual_stop', 'BGPPeering.manual_stop', 'BGPPeering.manual_start',
+             'BGPPeering.automatic_start', 'FSM.connect_retry_time_event', 'FSM.idle_hold_time_event', 'FSM.connection_failed',
+             'BGPPeering.connection_closed[untracked]', 'BGP.connectionLost[untracked]')
 STATS = ('Opens', 'Notifications', 'Updates', 'Keepalives', 'RouteRefresh')
 
 
@@ -66,6 +71,10 @@ def clause_props(name):
         out |= {'C01', 'C05'}
     if unit in ('BGP._update_received',):
         out |= {'C01', 'C10'}
+    if unit in C12_UNITS and not ('dict.' in name and any(('dict.' + k) in name for k in STATS)):
+        out |= {'C01', 'C12'}     # the connection-management mechanisms themselves
+    if 'I5-idle-no-live-connection' in name:
+        out |= {'C01', 'C12'}     # nothing live is left behind in Idle
     if '/post:Inv/' in name and not any(x in name for x in ('C12-', 'C13-', 'C02-')):
         out |= {'C10'}            # C10 (f): the agent is left in a clean state after any input
     if 'Inv/state-range' in name:
@@ -265,7 +274,18 @@ def peering_units(props=ALL_SESSION_PROPS + ('C10',)):
             if name in ('automatic_start', 'manual_start'):
                 args.append(p.branch(z3.Bool('idle_hold')))
             elif name == 'connection_closed':
-                args.append(S.P if (S.P is not None and p.branch(z3.Bool('pro_is_P'))) else None)
+                k = p.choose(3, 'pro')
+                if k == 0 and S.P is not None:
+                    args.append(S.P)
+                elif k == 1:
+                    args.append(None)
+                else:
+                    # C12 regime: a connection that is no longer the tracked one reports its close
+                    old = Obj(it.prog.func('yabgp.core.protocol.BGP'), tag='P_old')
+                    old.f.update({'fsm': S.fsm, 'factory': S.peering, 'bgp_peering': S.peering, 'disconnected': True,
+                                  'transport': Obj('Transport', {'connected': 0, 'disconnecting': True}, tag='transport_old')})
+                    roots.append(old)
+                    args.append(old)
             elif name == 'clientConnectionFailed':
                 args += [Obj('Connector', {}), Obj('Reason', {})]
                 consume_attempt(it, S)
